@@ -126,6 +126,46 @@ theorem run_length_le {keq : K → K → Bool} {f : K → V} {cap : Nat} : ∀ (
 
 end
 
+section
+variable {K V : Type}
+
+theorem mem_call {keq : K → K → Bool} {f : K → V} {cap : Nat} {m : List (K × V)} (k : K) :
+    ∀ p ∈ (call keq f cap m k).2, p ∈ m ∨ p.1 = k := by
+  unfold call
+  cases hf : find keq k m with
+  | some q =>
+    obtain ⟨k', v⟩ := q
+    intro p hp
+    simp only [List.mem_append, List.mem_singleton] at hp
+    rcases hp with hp | hp
+    · exact .inl (remove_subset p hp)
+    · rw [hp]; exact .inl (find_mem hf).1
+  | none =>
+    simp only
+    split
+    · intro p hp; exact .inl hp
+    · intro p hp
+      have := List.mem_of_mem_drop hp
+      simp only [List.mem_append, List.mem_singleton] at this
+      rcases this with h1 | h1
+      · exact .inl h1
+      · right; rw [h1]
+
+theorem mem_run {keq : K → K → Bool} {f : K → V} {cap : Nat} : ∀ (hist : List K) (m : List (K × V)),
+    ∀ p ∈ run keq f cap m hist, p ∈ m ∨ p.1 ∈ hist := by
+  intro hist
+  induction hist with
+  | nil => intro m p hp; exact .inl hp
+  | cons k ks ih =>
+    intro m p hp
+    rcases ih _ p hp with h | h
+    · rcases mem_call k p h with h2 | h2
+      · exact .inl h2
+      · right; rw [h2]; exact List.mem_cons_self
+    · exact .inr (List.mem_cons_of_mem _ h)
+
+end
+
 theorem canon_of_pyEq {a b : PyKey} (h : pyEq a b = true) : canon a = canon b := by
   simpa [pyEq] using h
 
